@@ -28,13 +28,17 @@ TECHNIQUE = (
     "{CLI, GALLIA_<NAME>, gallia.toml key, built-in default} is pushed through gallia's real create_parser()/parse_typed_args() "
     "with values generated together with their denotation; the effective value is compared with a CLI>env>file>default "
     "reference model, invalid values must be rejected naming their source, every parsed config is dumped to JSON and reloaded, "
-    "and the keys printed by template() are compared with the file keys that are actually honoured"
+    "and the keys printed by template() are compared with the file keys that are actually honoured; the file generator also writes "
+    "files that define only the leading parts of an option's key as something that does not lead to the key (scalar, array, array of "
+    "tables, table without the next part): such a file holds no value for the option, which must then resolve from the next source"
 )
 LEVEL_TEXT = (
     "Exploration: all commands found at run time in load_commands() (34 in the pinned tree). Quick: four commands with all their "
     "options plus three options (rarest field types first) of every other command, one value draw; thorough: every option of "
     "every command, four value draws. Per option all subsets of the sources that apply to it are exercised (8 per option, all 16 "
-    "of the statement across options with and without a built-in default), plus invalid-value, const-flag and short-flag cases. "
+    "of the statement across options with and without a built-in default), plus invalid-value, const-flag and short-flag cases, "
+    "plus files without a value at the option's key (2+1 drawn forms per option and round; separate shards run every file key of "
+    "the tree x every intermediate position of the key x all 17 forms on one (quick) / six (thorough) commands declaring the key). "
     "Held = held on those parses, for the dependency versions installed in this image."
 )
 LEVEL_NOTE = (
@@ -44,7 +48,10 @@ LEVEL_NOTE = (
 )
 RULE = (
     "case = (command, option, set of sources providing a value, value draw, variant) where variant is valid / invalid-from-<source> / "
-    "const-flag / short-flag; values per field type: ints spelled dec/hex/oct/bin (AutoInt), hex strings in both cases (HexBytes), "
+    "const-flag / short-flag / shadow-<form> (gallia.toml defines parts[:pos] of the option's key, 1 <= pos < number of parts, as "
+    "false/true/0/int/float/empty string/string/date/a valid value of the option itself/empty, int, string array/array holding that "
+    "value/array of tables holding the rest of the key/empty inline table/inline or ordinary table with another key; tomllib confirms "
+    "that the file has no value at any key of the command; expected = CLI > env > default, usage error if required); values per field type: ints spelled dec/hex/oct/bin (AutoInt), hex strings in both cases (HexBytes), "
     "range expressions (Ranges, Ranges2D), enum members by name / decimal value / hex value, URIs of the scheme the command accepts, "
     "paths, floats, strings, booleans as --x/--no-x and true/false/1/0, lists on CLI and as TOML arrays; values differ per source so "
     "the winner is identifiable; non-trivial = the expected winner's value differs from every other value in play; distinct = "
@@ -65,6 +72,9 @@ ASSUMPTIONS = [
     "(trivial for precedence); the rejected text doubles as the invalid value",
     "dict-typed options (init_kwargs, properties of the db virtual ECU) and list[tuple] options are not spelled by the generators",
     "a command whose required options cannot be satisfied by any generated argv is reported as uncovered, not as a violation",
+    "'the matching key of gallia.toml' is read as TOML reads a dotted key: section.name has a value iff every part of the section names "
+    "a table and the last table holds name; a scalar, array or array of tables at an intermediate position means the file provides "
+    "nothing for the option (it is neither a value nor an invalid value of that option)",
 ]
 EXHAUSTIVE = {"quick": False, "thorough": False}
 EXHAUSTIVE_NOTE = "exhaustive sub-space: commands x options x source subsets (thorough tier); values are sampled"
@@ -72,6 +82,8 @@ EXHAUSTIVE_NOTE = "exhaustive sub-space: commands x options x source subsets (th
 KINDS_REQUIRED = ["AutoInt", "HexBytes", "Ranges", "Ranges2D", "EnumArg", "AutoLiteral", "TargetURI", "path", "bool", "int", "float", "str"]
 FULL_QUICK = 4
 OPTS_QUICK = 3
+SHADOW_SHARDS_QUICK = 4
+SHADOW_SHARDS_THOROUGH = 8
 
 
 # ------------------------------------------------------------------------------------------------
@@ -97,6 +109,8 @@ def shards(tier: str, seed: int) -> list[dict[str, Any]]:
     cmds = _commands()
     rng = random.Random(f"C18/plan/{seed}")
     out: list[dict[str, Any]] = []
+    nsh, per_key = (SHADOW_SHARDS_THOROUGH, 6) if tier == "thorough" else (SHADOW_SHARDS_QUICK, 1)
+    out += [{"mode": "shadow", "part": k, "parts": nsh, "per_key": per_key} for k in range(nsh)]
     if tier == "thorough":
         for i, (path, _) in enumerate(cmds):
             out.append({"mode": "command", "index": i, "path": list(path), "options": None, "rounds": 4, "full_every": 12})
@@ -160,6 +174,17 @@ def required_reach(tier: str) -> dict[str, int]:
     need["variant.const-flag"] = 1
     need["variant.bool-negated"] = 1
     need["variant.invalid"] = 10
+    # files with a non-table (or a table without the next part) at an intermediate position of an option's key: every form, at the
+    # first / an inner / the last intermediate position, on options that were seen to take a genuine value from their key in this run
+    for f in SHADOW_FORMS:
+        need[f"shadow.form.{f}"] = 3
+    for dep in ("first", "inner", "last"):
+        need[f"shadow.depth.{dep}"] = 10
+    need["shadow.cases.option-honours-file"] = 200
+    need["shadow.cases.option-honours-file.default-decides"] = 150
+    need["shadow.decides.cli"] = 5
+    need["shadow.decides.env"] = 5
+    need["#shadow.honoured-key."] = 10
     return need
 
 
@@ -340,6 +365,73 @@ def names_source(text: str, src: str, d: S.Decl) -> bool:
     return False
 
 
+# ------------------------------------------------------------------------------------------------
+# gallia.toml files that have NO value at an option's key although the first parts of the key exist: something that is not a
+# table (a scalar, an array, an array of tables) or a table without the next part sits at an intermediate position of the
+# dotted key.  By the statement such a file provides nothing for the option ("the one from the MATCHING key of gallia.toml,
+# otherwise the built-in default"): a file value that is not there must not be invented.
+SHADOW_FORMS: dict[str, str] = {  # form -> what sits at the intermediate position (part of the violation key)
+    "false": "scalar", "true": "scalar", "zero": "scalar", "int": "scalar", "float": "scalar", "empty-string": "scalar",
+    "string": "scalar", "date": "scalar", "own-value": "scalar",
+    "empty-array": "array", "int-array": "array", "string-array": "array", "own-value-array": "array",
+    "array-of-tables-holding-rest": "array-of-tables",
+    "empty-inline-table": "table-without-next-part", "inline-table-other-key": "table-without-next-part", "table-other-key": "table-without-next-part",
+}
+SHADOW_NEEDS_LIT = ("own-value", "own-value-array", "array-of-tables-holding-rest")
+
+
+def toml_lookup(doc: Any, key: str) -> Any:
+    """The value a TOML document has at a dotted key (S.UNSET if none): every part but the last must name a table."""
+    cur: Any = doc
+    for part in key.split("."):
+        if not isinstance(cur, dict) or part not in cur:
+            return S.UNSET
+        cur = cur[part]
+    return cur
+
+
+def shadow_positions(key: str) -> list[int]:
+    """Intermediate positions of a dotted key: pos = number of leading parts that the file defines (1 .. parts-1)."""
+    return list(range(1, len(key.split("."))))
+
+
+def shadow_depth(key: str, pos: int) -> list[str]:
+    n = len(key.split("."))
+    return [x for x, yes in (("first", pos == 1), ("inner", 1 < pos < n - 1), ("last", pos == n - 1)) if yes]
+
+
+def shadow_toml(key: str, pos: int, form: str, lit: str | None, rng: random.Random) -> tuple[str, str] | None:
+    """(TOML text, class of the thing at the intermediate position) for a file in which parts[:pos] of `key` is defined
+    as `form` - so that the file holds no value at `key`.  `lit` is a valid file literal of the option itself (the most
+    tempting content).  None = the form needs such a literal and there is none."""
+    parts = key.split(".")
+    parent, name, rest = parts[: pos - 1], parts[pos - 1], parts[pos:]
+    if lit is None and form in SHADOW_NEEDS_LIT:
+        return None
+    word = "".join(rng.choice("abcdefghijklmnopqrstuvwxyz") for _ in range(rng.randint(1, 8)))
+    n = rng.randint(1, 0xFFFF)
+    klass = SHADOW_FORMS[form]
+    head = [f"[{'.'.join(parent)}]"] if parent else []
+    sibling = [f"verif_sibling = {n}"] if rng.random() < 0.3 else []
+    noise = ["", "[verif_noise]", 'unused = "x"'] if rng.random() < 0.3 else []
+    other = lit if lit is not None else str(n)
+    if form == "array-of-tables-holding-rest":
+        lines = [f"[[{'.'.join(parts[:pos])}]]", f"{'.'.join(rest)} = {lit}"]
+        if rng.random() < 0.5:
+            lines += ["", f"[[{'.'.join(parts[:pos])}]]", f"{'.'.join(rest)} = {lit}"]
+        return "\n".join(lines + noise) + "\n", klass
+    if form == "table-other-key":
+        return "\n".join([f"[{'.'.join(parts[:pos])}]", f"verif_other = {other}"] + sibling + noise) + "\n", klass
+    value = {
+        "false": "false", "true": "true", "zero": "0", "int": str(n), "float": f"{n}.5", "empty-string": '""', "string": S.toml_str(word),
+        "date": "1979-05-27", "own-value": lit, "empty-array": "[]", "int-array": f"[{n}, {n + 1}]", "string-array": f"[{S.toml_str(word)}]",
+        "own-value-array": f"[{lit}]", "empty-inline-table": "{}", "inline-table-other-key": f"{{ verif_other = {other} }}",
+    }[form]
+    if form == "own-value" and str(lit).startswith("["):
+        klass = "array"
+    return "\n".join(head + [f"{name} = {value}"] + sibling + noise) + "\n", klass
+
+
 class OptionRun:
     def __init__(self, h: Harness, d: S.Decl, vseed: str, rounds: int):
         self.h = h
@@ -360,6 +452,7 @@ class OptionRun:
         self.default = d.default if d.default_is_literal else self.rt.get_default(call_default_factory=True)
         self.restricted = False
         self.bad_text: str | None = None
+        self.file_honoured = False  # a genuine value at this option's file key was seen to become the effective value
 
     def witness(self, present: set[str], argv: list[str], env: dict[str, str], toml_text: str, expected: Any, out: Outcome, variant: str) -> dict[str, Any]:
         got: Any = out.brief()
@@ -527,12 +620,115 @@ class OptionRun:
         got = getattr(out.cfg, d.name, S.UNSET)
         if S.same(got, expected):
             ctx.reach("outcome.effective-value-ok")
+            if w == "file":
+                self.file_honoured = True
             return
         lower = [s for s in ("cli", "env", "file") if s in present and s != w]
         if any(S.same(got, vals[s].expected) for s in lower) or (d.has_default and S.same(got, self.default)):
             ctx.violation(f"precedence/{w}-ignored/{self.mech}", f"the value from {w} should win but another source or the default is effective", wit())
         else:
             ctx.violation(f"precedence/{w}-wrong-value/{self.tkey}", f"the effective value is not the one given by {w}", wit())
+
+    # -- files without a value at the option's key (non-table at an intermediate position) ------
+    def shadow_cases(self, plan: Plan, base: Any, fixed: dict[str, S.Val], rnd: int, exhaustive: bool = False) -> None:
+        """The file defines the first parts of the option's key as something that does not lead to the key: the file provides
+        no value, so the effective value is that of the next source (CLI > env > default; none and required => usage error)."""
+        import tomllib
+
+        d, ctx, h = self.d, self.ctx, self.h
+        key = d.file_key
+        if key is None or "file" not in self.sources:
+            return
+        other_keys = {x.file_key for x in h.decls.values() if x.file_key is not None and x.name in h.fields}
+        positions = [p for p in shadow_positions(key) if ".".join(key.split(".")[:p]) not in other_keys]
+        if not positions:
+            ctx.reach("shadow.skipped.no-intermediate-position")
+            return
+        if d.spec.kind == "bool":
+            lv = S.gen_value(d.spec, self.rng, "file", 0 if (d.has_default and bool(self.default)) else 1)
+        else:
+            lv = fixed.get("file")
+        lit = None if lv is None or lv.toml is None else str(lv.toml)
+        upper = [s for s in self.sources if s != "file"]
+        upper_sets = [set(s for j, s in enumerate(upper) if m >> j & 1) for m in range(1, 1 << len(upper))]
+        forms = list(SHADOW_FORMS)
+        todo: list[tuple[int, str, set[str]]] = []
+        if exhaustive:
+            for pos in positions:
+                todo += [(pos, f, set()) for f in forms]
+            todo += [(self.rng.choice(positions), self.rng.choice(forms), ps) for ps in upper_sets]
+        else:
+            todo += [(self.rng.choice(positions), f, set()) for f in self.rng.sample(forms, 2)]
+            if upper_sets:
+                todo.append((self.rng.choice(positions), self.rng.choice(forms), self.rng.choice(upper_sets)))
+        for pos, form, present in todo:
+            if ctx.out_of_time():
+                return
+            made = shadow_toml(key, pos, form, lit, self.rng)
+            if made is None:
+                ctx.reach("shadow.skipped.no-file-literal")
+                continue
+            toml_text, klass = made
+            doc = tomllib.loads(toml_text)  # a generator that writes invalid TOML is a harness error, not a verdict
+            hit = [k for k in other_keys | {key} if toml_lookup(doc, k) is not S.UNSET]
+            if hit:
+                raise RuntimeError(f"shadow file generator: the file has a value at {hit[0]!r}: {toml_text!r}")
+            vals = self.values(present, rnd, plan, fixed)
+            argv, env, _ = self.build(plan, base, present, vals)
+            out = h.parse(argv, env, toml_text)
+            w = S.winner(present, d.has_default)
+            bits = S.combo_bits(present, d.has_default)
+            ctx.case((h.cmdname, d.name, bits, rnd, f"shadow/{form}/{pos}"))
+            ctx.reach("shadow.cases")
+            ctx.reach(f"shadow.form.{form}")
+            ctx.reach(f"shadow.class.{klass}")
+            for dep in shadow_depth(key, pos):
+                ctx.reach(f"shadow.depth.{dep}")
+            ctx.reach(f"shadow.decides.{w or 'nothing'}")
+            if self.file_honoured:
+                ctx.reach("shadow.cases.option-honours-file")
+                ctx.reach(f"shadow.honoured-key.{key}")
+                if w == "default":
+                    ctx.reach("shadow.cases.option-honours-file.default-decides")
+            expected = "<usage error>" if w is None else (self.default if w == "default" else vals[w].expected)
+            wit = lambda: {**self.witness(present, argv, env, toml_text, expected, out, f"shadow-{form}"), "file_key": key, "position": pos}  # noqa: E731,B023
+            ctx.sample({"command": h.cmdname, "option": d.name, "type": d.spec.label, "sources": sorted(present), "shadow": form, "argv": argv, "env": env, "toml": toml_text, "outcome": out.brief()})
+            ctx.trace((d.spec.label, bits, out.kind, self.mech, "shadow", klass))
+            self.judge_shadow(present, vals, out, wit, klass, expected)
+
+    def judge_shadow(self, present: set[str], vals: dict[str, S.Val], out: Outcome, wit: Any, klass: str, expected: Any) -> None:
+        d, ctx = self.d, self.ctx
+        w = S.winner(present, d.has_default)
+        if w in ("cli", "env"):
+            # a higher source decides: whatever goes wrong is about that source (the file is not among `present`)
+            self.judge_valid(present, vals, out, wit, "valid")
+            return
+        if out.kind == "raise":
+            ctx.violation(f"parser-raises/{type(out.exc).__name__}/{self.mech}", f"building or running the parser raises {type(out.exc).__name__}", wit())
+            return
+        if w is None:
+            if out.kind == "ok":
+                ctx.violation(f"file/non-matching-key-used/{klass}", "a required option without any source is accepted: a value was taken from a file that has none at the option's key", wit())
+            else:
+                ctx.reach("outcome.usage-error")
+            return
+        if out.kind == "exit":
+            if self.violates_cross_field_rule(present, vals):
+                ctx.reach("skipped.cross-field-constraint")
+                return
+            ctx.violation(
+                f"file/non-matching-key-used/{klass}",
+                "gallia.toml has no value at the option's key (the leading parts of the key do not lead to it), yet the run is rejected instead of resolving from the next source", wit(),
+            )
+            return
+        got = getattr(out.cfg, d.name, S.UNSET)
+        if S.same(got, expected):
+            ctx.reach("outcome.shadow-next-source-ok")
+            return
+        ctx.violation(
+            f"file/non-matching-key-used/{klass}",
+            f"gallia.toml has no value at the option's key, yet the effective value is not the one of the next source ({w})", wit(),
+        )
 
     def reload(self, out: Outcome, wit: Any) -> None:
         if out.kind != "ok":
@@ -635,6 +831,7 @@ class OptionRun:
                 self.judge_valid(present, vals, out, wit, "valid")
                 self.reload(out, wit)
             self.special_cases(plan, base, fixed, rnd)
+            self.shadow_cases(plan, base, fixed, rnd)
         # soft observation: is GALLIA_<NAME> consulted for options without config metadata?
         if d.how != "config-field" and d.spec.env_ok and "cli" in self.sources:
             v = fixed["env"]
@@ -894,9 +1091,52 @@ def run_template(ctx: Any) -> None:
     ctx.sample({"template_keys": len(listed), "honoured": len(honoured), "declared": len(declared_keys)}, force=True)
 
 
+def run_shadow(ctx: Any, params: dict[str, Any]) -> None:
+    """Every file key of the tree x every intermediate position x every form of 'something there that does not lead to the key',
+    on `per_key` commands that declare the key; the option is first shown to take a genuine value from its key."""
+    cmds = _commands()
+    declared_keys: dict[str, list[tuple[int, str]]] = {}
+    for i, (_, cmd) in enumerate(cmds):
+        for d in _options(cmd):
+            if d.file_key is not None and d.spec.cli_ok and not d.positional:
+                declared_keys.setdefault(d.file_key, []).append((i, d.name))
+    harnesses: dict[int, Harness] = {}
+    for n, key in enumerate(sorted(declared_keys)):
+        if n % params["parts"] != params["part"]:
+            continue
+        users = list(declared_keys[key])
+        random.Random(f"C18/shadow/{ctx.seed}/{key}").shuffle(users)
+        for i, name in users[: params["per_key"]]:
+            if ctx.out_of_time():
+                ctx.reach("stopped.out_of_time")
+                return
+            path, cmd = cmds[i]
+            h = harnesses.setdefault(i, Harness(ctx, path, cmd, 0))
+            orun = OptionRun(h, h.decls[name], f"{ctx.seed}/shadow/{h.cmdname}/{name}", 1)
+            if "file" not in orun.sources:
+                continue
+            found = orun.find_plan()
+            if found is None:
+                ctx.reach("shadow.uncovered.no-plan")
+                continue
+            plan, base, fixed = found
+            # a genuine value at the key: does this option take file values at all?  (judged like every valid case)
+            present = {"file"}
+            vals = orun.values(present, 0, plan, fixed)
+            argv, env, toml_text = orun.build(plan, base, present, vals)
+            out = h.parse(argv, env, toml_text)
+            ctx.case((h.cmdname, name, S.combo_bits(present, orun.d.has_default), 0, "shadow-reference"))
+            wit = lambda: orun.witness(present, argv, env, toml_text, vals["file"].expected, out, "valid")  # noqa: E731,B023
+            orun.judge_valid(present, vals, out, wit, "valid")
+            ctx.reach("shadow.options")
+            orun.shadow_cases(plan, base, fixed, 0, exhaustive=True)
+
+
 def run(ctx: Any, params: dict[str, Any]) -> None:
     if params["mode"] == "template":
         run_template(ctx)
+    elif params["mode"] == "shadow":
+        run_shadow(ctx, params)
     else:
         run_command(ctx, params)
 
@@ -913,7 +1153,10 @@ def replay(ctx: Any, witness: dict[str, Any]) -> None:
         if " ".join(path) == witness["command"]:
             h = Harness(ctx, path, cmd, 0)
             d = h.decls[witness["option"]]
-            OptionRun(h, d, witness.get("vseed", f"{ctx.seed}/{h.cmdname}/{d.name}"), 2).run()
+            orun = OptionRun(h, d, witness.get("vseed", f"{ctx.seed}/{h.cmdname}/{d.name}"), 2)
+            orun.run()
+            if str(witness.get("variant", "")).startswith("shadow-") and (found := orun.find_plan()) is not None:
+                orun.shadow_cases(found[0], found[1], found[2], 0, exhaustive=True)
             return
     raise RuntimeError(f"command {witness['command']!r} not in the command tree")
 
